@@ -8,6 +8,15 @@ mod debug;
 mod extend;
 mod layout;
 mod mangle;
+// verification hook (C17/C18): layout tables and type ids, see verif_layout.rs
+#[cfg(capy_verif)]
+pub mod verif_layout;
+// verification hook (C19/C02): ABI pass modes, see verif_abi.rs
+#[cfg(capy_verif)]
+pub mod verif_abi;
+// verification hook (C27): symbol mangling, see verif_mangle.rs
+#[cfg(capy_verif)]
+pub mod verif_mangle;
 
 #[cfg(test)]
 mod tests;
